@@ -166,7 +166,10 @@ def sampling(repo, chk):
             ups = [cn._add([('name', c), l]) for l in lens]
             if cursor != c or up not in ups:
                 ok_cursor, why = False, f'slice store {ast.unparse(st.targets[0])} does not end at cursor + len(stored values)'
-                if cursor == c:
+                running = any(isinstance(a, ast.AugAssign) and isinstance(a.target, ast.Name) and a.target.id == c for a in own_nodes(fn.node))
+                if not running:
+                    why = f'the lower bound `{c}` of the slice store is not a running cursor (it is not advanced by `{c} += ...`): where each stratum is written is decided by something this rule does not model'
+                elif cursor == c:
                     chk.bad('C04.1a', 'R4', fn.site(st), ast.unparse(st), f'the slice store starts at the cursor `{c}` but does not end at {c} + len(stored values): entries of the written prefix are left uninitialised or overwritten')
                     why = None
                 break
@@ -313,12 +316,17 @@ def sampling(repo, chk):
                 sel_site, sel_txt = fn.site(n), ast.unparse(n)
                 break
             if isinstance(n.targets[0], ast.Subscript) and any(x == W for x in walk_term(t)) and sel_ok is None:
-                # rows of the stratum are stored, but not as the quota-long prefix
-                sel_ok = False
+                # rows of the stratum are stored, but not as the quota-long prefix - unless the length of the prefix is written over locals
+                # this rule cannot resolve (e.g. bounds read from a table): then it is not decided here
+                fn_locals = {x.id for x in ast.walk(fn.node) if isinstance(x, ast.Name) and isinstance(x.ctx, ast.Store)} - set(fn.params)
+                loose = {x[1] for x in walk_term(t) if isinstance(x, tuple) and len(x) == 2 and x[0] == 'name' and x[1] in fn_locals} - {v[1] if v[0] == 'name' else None}
+                sel_ok = 'unsure' if loose else False
                 sel_site, sel_txt = fn.site(n), ast.unparse(n)
-        if sel_ok:
+        if sel_ok is True:
             break
-    if sel_ok:
+    if sel_ok == 'unsure':
+        chk.unsure('C04.3b', 'R15', sel_site, sel_txt, 'the rows of a stratum are stored as a prefix whose length is written over locals this rule cannot resolve to the quota')
+    elif sel_ok:
         chk.ok('C04.3b', 'R15', sel_site, sel_txt, 'per stratum: the first quota rows carrying the value, quota = int(int(r*n)/#values)')
     elif sel_ok is False:
         chk.bad('C04.3b', 'R15', sel_site, sel_txt, 'the per-stratum selection must be the prefix np.where(X == v)[0][:int(int(r*n)/#values)] for every distinct target value')
